@@ -3,6 +3,7 @@ import Gin.Drv.Selmap
 import Gin.Drv.GinDom
 import Gin.Drv.ScopesDom
 import Gin.Drv.ParseDom
+import Gin.Drv.SchedDom
 open Lean Gin.Drv
 
 def handle (j : Json) : Json :=
@@ -11,6 +12,7 @@ def handle (j : Json) : Json :=
   | "gin" => Gin.Drv.GinDom.run j
   | "scopes" => Gin.Drv.ScopesDom.run j
   | "parse" => Gin.Drv.ParseDom.run j
+  | "sched" => Gin.Drv.SchedDom.run j
   | "parse2" => Json.mkObj [("runs", Json.arr ((jarr (jfield j "runs")).map Gin.Drv.ParseDom.run).toArray)]
   | d => Json.mkObj [("error", Json.str s!"unknown domain {d}")]
 
